@@ -3,28 +3,22 @@ import MythVerif.Proofs.WsQueueTsoTac
 namespace MythVerif.WsqTso
 open MythVerif.Wsq
 
-set_option maxHeartbeats 4000000 in
 theorem f_O_base_po9 (s : St) (v0) (rest : List Sto) : Inv s → s.opc = .po9 →
     s.bufO = .base v0 :: rest → Inv (applySto { s with bufO := rest } (.base v0)) := by
   intro h hpc hb
   simp only [applySto]
-  cases h; simp only [hpc, ownerLocked, carry, resetting, ownerFlight] at *
-  tso_finish3
+  tso_fastO h hpc [po9]
 
-set_option maxHeartbeats 4000000 in
 theorem f_O_base_pux (s : St) (v0) (rest : List Sto) (e t) : Inv s → s.opc = .pux e t →
     s.bufO = .base v0 :: rest → Inv (applySto { s with bufO := rest } (.base v0)) := by
   intro h hpc hb
   simp only [applySto]
-  cases h; simp only [hpc, ownerLocked, carry, resetting, ownerFlight] at *
-  tso_finish3
+  tso_fastO h hpc [pux]
 
-set_option maxHeartbeats 4000000 in
 theorem f_O_base_pt6 (s : St) (v0) (rest : List Sto) (e) : Inv s → s.opc = .pt6 e →
     s.bufO = .base v0 :: rest → Inv (applySto { s with bufO := rest } (.base v0)) := by
   intro h hpc hb
   simp only [applySto]
-  cases h; simp only [hpc, ownerLocked, carry, resetting, ownerFlight] at *
-  tso_finish3
+  tso_fastO h hpc [pt6]
 
 end MythVerif.WsqTso
